@@ -55,6 +55,14 @@ def transpiled(instrs, debug=False):
     from netqasm.sdk.transpile import NVSubroutineTranspiler
     sub = codec.mk_subroutine("vanilla", [0, 10], 0, instrs)
     out = NVSubroutineTranspiler(sub, debug=debug).transpile()
+    # monitor: every position of the result is an instruction object of its own (passes that run after the expansion - the
+    # transpiler's own branch re-targeting, a peephole of a back end - edit positions in place; an object listed at two
+    # positions would be rewritten at both)
+    seen = {}
+    for pos, ins_ in enumerate(out.instructions):
+        if id(ins_) in seen and _wire.get("shared") is None:
+            _wire["shared"] = f"positions {seen[id(ins_)]} and {pos} of the transpiled subroutine are one instruction object ({ins_})"
+        seen.setdefault(id(ins_), pos)
     _wire["n"] += 1
     if not debug and _wire["n"] % 2:
         _wire["ctx"].count("executed_as_received_over_the_wire")
@@ -175,6 +183,10 @@ def _run(ctx, case):
         left = no_vanilla_left(sub)
         if left:
             ctx.fail(case, f"vanilla instruction survives transpilation: {left}")
+            return
+        if _wire.get("shared"):
+            ctx.fail(case, f"{g} control {a} target {c}: {_wire['shared']}: an in-place edit of one rewrites the other")
+            _wire["shared"] = None
             return
         got = b.run(sub, b.choi())
         ctx.count("two_qubit_unitaries")
@@ -301,6 +313,26 @@ def _matrices(ctx, case):
         ctx.count("published_matrices")
         if not _close(vanilla.MovInstruction(reg0=reg, reg1=reg1).to_matrix(), rq.SWAP):
             ctx.fail(case, "vanilla.MovInstruction.to_matrix() is not the SWAP it documents")
+        # a consumer works in place on the matrices the package's gate_to_matrix() hands out (conjugates them, say); what is
+        # published afterwards - the static gates and the rotations built from the Pauli matrices - is still the operator
+        from netqasm.lang.ir import GenericInstr
+        from netqasm.util.quantum_gates import gate_to_matrix
+        for gi in (GenericInstr.X, GenericInstr.Y, GenericInstr.Z, GenericInstr.H, GenericInstr.K, GenericInstr.S, GenericInstr.T):
+            try:
+                m_ = gate_to_matrix(gi)
+                m_ *= 1j
+                m_[0, 0] += 3
+                ctx.count("static_matrices_scribbled_by_a_consumer")
+            except (TypeError, ValueError, KeyError):
+                pass
+        for cls, w in table:
+            if not _close(cls(reg=reg).to_matrix(), w):
+                ctx.fail(case, f"after a consumer edited the matrix gate_to_matrix() gave it, {cls.__name__}.to_matrix() is not the {cls.mnemonic} operator")
+                return
+        for axis, cname in (("x", "RotXInstruction"), ("y", "RotYInstruction"), ("z", "RotZInstruction")):
+            if not _close(getattr(vanilla, cname)(reg=reg, imm0=Immediate(3), imm1=Immediate(2)).to_matrix(), rq.rot(axis, rq.angle_nd(3, 2))):
+                ctx.fail(case, f"after a consumer edited the matrices gate_to_matrix() gave it, vanilla.{cname}(3,2).to_matrix() is not R_{axis}(3pi/4)")
+                return
         return
     d = case["d"]
     for n in range(256):
